@@ -848,12 +848,18 @@ def c05_monitor(case, frames):
                 absent_since[b] = seq
         seen_before |= set(ids)
     # a bar whose Add returned before a cycle began and that is not queued must be in that cycle's frame
-    add_ret, queued = {}, set()
+    # (queued = parked behind a bar that has not handed over yet; a bar queued after a bar whose second terminal frame has
+    # already been flushed is pushed at once and must be in the next frame like any other bar)
+    add_ret, queued, handed = {}, set(), set()
     cyc_begin = None
     for l in case["trace"]:
         f = l.split()
         if f[2] == "CT_ADD" and f[4] != "after=-1":
-            queued.add(int(f[3][1:]))
+            pre = int(f[4][7:]) if f[4].startswith("after=b") else int(f[4][6:])
+            if pre not in handed:
+                queued.add(int(f[3][1:]))
+        elif f[2] == "CT_FLUSHBAR" and f[4] == "1" and not (len(f) > 8 and f[8] == "1"):
+            handed.add(int(f[3][1:]))
         elif f[2] == "RET_ADD" and f[4] == "1":
             add_ret[int(f[3][1:])] = int(f[1])
         elif f[2] == "CT_RENDERBEGIN":
@@ -899,7 +905,7 @@ def check_C05(ctx):
                        "below/at/above the bar count, pop mode, removal, queued bars, extender rows, width-synchronised markers; "
                        "non-trivial = at least 2 frames; distinct = (configuration, script)")
     ctx.assumptions = ["height clipping: when the rows do not fit, the bottom-most are drawn (C05 is stated for frames that fit)",
-                       "generated scenarios stay out of the C17 known-finding region (late / second successors)"]
+                       "queued bars: any number per predecessor, created before or after the predecessor's hand-over"]
     frames_check(ctx, {"CT_FLUSHBAR", "HM_PUSH", "HM_POP", "OUT_ROWS", "OUT_UNEXPECTED", "CT_FRAME", "NOTIFY", "HM_SYNC",
                        "HM_ITERREQ", "CT_ADD", "HM_STATE", "HM_END"},
                  c05_monitor, 150, 4000, CONT_DEPS | {"GenChecks.v", "gen/GenApi.v", "Props/C05.v"})
@@ -930,11 +936,11 @@ def check_C06(ctx):
 @check
 def check_C17(ctx):
     ctx.cov["rule"] = FRAME_RULE + "; scenarios with queued bars only count as non-trivial"
-    ctx.assumptions = ["one successor per predecessor, created while the predecessor has not been flushed in its second terminal "
-                       "frame; the other histories are the known finding (directed witnesses)"]
+    ctx.assumptions = ["successors are created at any point of the script, before or after the predecessor's hand-over, any number "
+                       "per predecessor, chains included; the former D7 witnesses (late successor, second successor) and four "
+                       "directed variants run first from corpus/C17"]
     frames_check(ctx, {"CT_FLUSHBAR", "HM_PUSH", "OUT_ROWS", "CT_ADD", "HM_POP"}, M.c17_monitor, 300, 6000, CONT_DEPS | {"ContainerFlush.v", "Props/C17.v"},
                  nontrivial=lambda case, frames: any("after=" in l and "after=-1" not in l for l in case["trace"]) and len(frames) >= 2)
-    c17_directed(ctx)
 
 
 @check
@@ -1048,36 +1054,6 @@ def pty_check(ctx):
                 sigs.add(mon[1])
                 ctx.add_violation(mon[0], mon[1], {"family": "pty", "run_seed": run["seed"], "n": run["n"], "case": [c["line"]],
                                                    "bytes": c["data"][:3000]})
-C17_WITNESSES = [
-    ("late_successor_after_removed_predecessor.txt", "late-successor-never-displayed",
-     "a bar created to queue after a bar that has already left is never displayed and Wait never returns "
-     "(Props/C17.v C17_late_successor_never_displayed / C17_late_successor_refuted)"),
-    ("second_successor_same_predecessor.txt", "second-successor-dropped",
-     "a second bar queued after the same predecessor replaces the first in queueBars; the first is never displayed and "
-     "Wait never returns (Props/C17.v C17_second_successor_overwrites)"),
-]
-
-
-def c17_directed(ctx):
-    """replay the D7 witnesses (the region the generator stays out of) against the code: each one that still
-    fails is reported under its own signature, which known_findings.json lists"""
-    if ctx.replay:
-        return
-    for name, sig, what in C17_WITNESSES:
-        sc = os.path.join(VERIF, "corpus", "C17_directed", name)
-        run = ctx.run_family("frames", 0, extra=sc, tag=".d7." + name, model=False, env={"MPBH_HANG_MS": "4000"}, timeout=120, expected_to_fail=True)
-        ctx.cov["evaluations"] += 1
-        hung = run["rc"] != 0 and re.search(r"hang: (wait|livelock)", run["log"]) is not None
-        if hung:
-            ctx.add_violation(what + "; the harness reports: " + run["log"].strip()[-200:], sig,
-                              {"family": "frames", "script": read_lines(sc), "witness": name})
-        elif run["rc"] != 0:
-            ctx.add_violation("directed witness %s failed differently: %s" % (name, run["log"][-800:]), "c17-directed-" + name,
-                              {"family": "frames", "script": read_lines(sc), "witness": name})
-        else:
-            ctx.note("directed witness %s no longer hangs" % name)
-
-
 ALLFAMS = [("frames", 0.4, True), ("sched", 0.3, True), ("faults", 0.3, True)]
 
 
